@@ -33,7 +33,7 @@ def shapes(pal=0):
     return out
 
 
-CONFIGS = ["default", "kind", "name", "both", "cluster", "lr", "empty-kind"]
+CONFIGS = ["default", "kind", "name", "both", "cluster", "lr", "empty-kind", "falsy-name"]
 
 
 def config_for(label, spec):
@@ -51,6 +51,9 @@ def config_for(label, spec):
     if label == "lr":
         c["graph"]["rankdir"] = "LR"
         c["edge"]["color"] = "red"
+    if label == "falsy-name":  # name-level values that are falsy but legal must still beat the kind level
+        c["node"][first["k"]] = {"peripheries": "3", "penwidth": "2", "fixedsize": "true"}
+        c["node"][first["n"]] = {"peripheries": 0, "penwidth": 0, "fixedsize": 0, "xlabel": ""}
     if label == "empty-kind":
         c["node"]["Source"] = {}
         c["node"]["default"]["fontsize"] = "9"
@@ -213,7 +216,7 @@ def check_case(case):
     else:
         spec = copy.deepcopy(shapes(case["pal"])[case["shape"]])
         for c, gi in zip(spec["comps"], case["groups"]):
-            c["g"] = ["", "g1", "g10"][gi]   # one group name is a prefix of the other
+            c["g"] = (["", "g1", "g10"] if not case.get("blank_groups") else ["", "g1 ", " g1"])[gi]   # prefix-related names / names with blanks
     s = build_holes(spec) if case.get("holes") else build(spec)
     conf = config_for(case.get("config", "default"), spec)
     conf_before = copy.deepcopy(conf)
@@ -281,6 +284,8 @@ def gen_cases(tier):
                         if use_gv:
                             gv += 1
                         yield dict(fam="shape", shape=name, pal=pal, groups=groups, config=cfg, heat=heat, group=group, graphviz=use_gv)
+                        if cfg == "default" and sum(gs) in (2, 3) and not heat:
+                            yield dict(fam="shape", shape=name, pal=pal, groups=groups, config=cfg, heat=heat, group=group, graphviz=False, blank_groups=True)
                         if cfg == "default" and sum(gs) in (0, 2):  # the same structure reached through an edit history (freed + re-used node indices)
                             yield dict(fam="shape", shape=name, pal=pal, groups=groups, config=cfg, heat=heat, group=group, graphviz=False, holes=True)
     decs = range(-14, 8)
